@@ -235,42 +235,66 @@ theorem done_start {m0 m : Mem} {docs} (s : Start m0) (h : Done m0 docs m) : Sta
 
 /-! ## A fresh file is a starting point; the repaired model on programs without bulk operations -/
 
-theorem start_create : Start Mem.create :=
-  ⟨fun _ h => by cases h, rfl, rfl, rfl, fun _ h => by cases h, fun _ => rfl, fun _ h => by cases h,
-   fun _ h => by cases h, rfl, fun _ h => by cases h, fun _ => rfl⟩
+theorem start_create : Start Mem.create := by
+  refine ⟨?_, rfl, rfl, rfl, ?_, ?_, ?_, ?_, rfl, ?_, ?_⟩
+  · intro r hr; cases hr
+  · intro e he; cases he
+  · intro _; rfl
+  · intro f hf _; cases hf
+  · intro f hf; cases hf
+  · intro i hi; cases hi
+  · intro _; rfl
+
+/-- `commit_skip_indexes` / `finalize_indexes` -/
+def isBulk : Op → Bool
+  | .commitSkipIndexes => true
+  | .finalizeIndexes _ => true
+  | _ => false
 
 /-- the program contains neither `commit_skip_indexes` nor `finalize_indexes` -/
-def NoBulkOp : List Op → Prop
-  | [] => True
-  | .commitSkipIndexes :: _ => False
-  | .finalizeIndexes _ :: _ => False
-  | _ :: ops => NoBulkOp ops
+def NoBulkOp (ops : List Op) : Prop := ∀ op ∈ ops, isBulk op = false
+
+theorem stepR_eq_step (m : Mem) (op : Op) (h : isBulk op = false) : stepR m op = step m op := by
+  cases op <;> try rfl
+  all_goals (simp [isBulk] at h)
 
 theorem runR_eq_run (ops : List Op) (h : NoBulkOp ops) (m : Mem) : runR m ops = run m ops := by
   induction ops generalizing m with
   | nil => rfl
   | cons op ops ih =>
-    cases op <;> first
-      | exact absurd h (by simp [NoBulkOp])
-      | (simp only [runR, run, stepR]; exact ih (by simpa [NoBulkOp] using h) _)
+    simp only [runR, run, stepR_eq_step m op (h op (by simp))]
+    exact ih (fun x hx => h x (by simp [hx])) _
 
 theorem noBulk_puts (docs : List DocCall) (rest : List Op) (h : NoBulkOp rest) : NoBulkOp (putOps docs ++ rest) := by
-  induction docs with
-  | nil => exact h
-  | cons d ds ih => simpa [putOps, NoBulkOp] using ih
+  intro op hop
+  rcases List.mem_append.mp hop with h1 | h1
+  · unfold putOps at h1
+    obtain ⟨d, _, rfl⟩ := List.mem_map.mp h1
+    rfl
+  · exact h op h1
 
 /-- on the plain program the repaired model is the shared model -/
 theorem C40_plain_is_current (m : Mem) (docs : List DocCall) (ft : Nat) :
-    runR m (plainOps docs ft) = run m (plainOps docs ft) :=
-  runR_eq_run _ (noBulk_puts docs _ (by simp [NoBulkOp])) m
+    runR m (plainOps docs ft) = run m (plainOps docs ft) := by
+  apply runR_eq_run
+  apply noBulk_puts
+  intro op hop
+  simp only [List.mem_singleton] at hop
+  subst hop; rfl
 
 /-- on the batch program the repaired model is the shared model: `C40_batch` is a statement about the
     code as it is -/
 theorem C40_batch_is_current (m : Mem) (dis : Bool) (ws : Nat) (docs : List DocCall) (ft : Nat) :
     runR m (batchOps dis ws docs ft) = run m (batchOps dis ws docs ft) := by
   apply runR_eq_run
-  show NoBulkOp (putOps docs ++ [Op.endBatch, Op.commit ft])
-  exact noBulk_puts docs _ (by simp [NoBulkOp])
+  intro op hop
+  unfold batchOps at hop
+  rcases List.mem_cons.mp hop with h1 | h1
+  · subst h1; rfl
+  · refine noBulk_puts docs [Op.endBatch, Op.commit ft] ?_ op h1
+    intro op' hop'
+    simp only [List.mem_cons, List.not_mem_nil, or_false] at hop'
+    rcases hop' with rfl | rfl <;> rfl
 
 /-! ## The code as it is: the skip-index clause is false -/
 
@@ -290,8 +314,11 @@ def C40_full : Prop :=
 def witnessDoc : DocCall :=
   ({ ts := 100, content := "c0ffee", len := 69, plen := 69, emb := some (4, "e4"), zstd := true }, { ft := 69 })
 
-theorem witness_docOk : DocOk witnessDoc.1 :=
-  ⟨by decide, fun h => absurd h (by decide), fun _ h => by cases h, fun _ => by decide⟩
+theorem witness_docOk : DocOk witnessDoc.1 := by
+  refine ⟨by decide, ?_, ?_, ?_⟩
+  · intro h; exact absurd h (by decide)
+  · intro c hc; cases hc
+  · intro _; decide
 
 /-- **C40 is false for the code as it is**: through `commit_skip_indexes` + `finalize_indexes` the
     embedding of the witness document is not in the vector index (`some []`), through `commit` it is. -/
@@ -318,46 +345,52 @@ example : (visible (runR Mem.create (skipOps [[witnessDoc]] 6958))).vec = some [
 
 /-! ## Non-vacuity: concrete instances satisfy the hypotheses of the theorems -/
 
-/-- a chunked document with chunk embeddings, stored with different lengths on the two paths -/
-def exDocA (len1 len2 : Nat) (z : Bool) : DocCall :=
+/-- a chunked document with a chunk embedding; the chunks' stored lengths are parameters -/
+def exDocA (len1 len2 : Nat) : DocCall :=
   ({ ts := 7, uri := some "mv2://doc/a.txt", content := "E", len := 0, plen := 500,
      chunks := [{ content := "c1", len := len1, emb := some (2, "e1") }, { content := "c2", len := len2, emb := none }],
-     cdims := [2], zstd := z }, {})
+     cdims := [2] }, {})
 
+/-- a small embedded document put with `instant_index`; stored length / compression are parameters -/
 def exDocB (len : Nat) (z : Bool) : DocCall :=
   ({ ts := 5, content := "bb", len := len, plen := len, emb := some (2, "e0"), zstd := z, ii := true }, {})
 
-theorem exDocA_ok (l1 l2 : Nat) (z : Bool) (h1 : l1 ≠ 0) (h2 : l2 ≠ 0) : DocOk (exDocA l1 l2 z).1 :=
-  ⟨by decide, fun _ => ⟨rfl, by rfl⟩, by
-    intro c hc
+theorem exDocA_ok (l1 l2 : Nat) (h1 : l1 ≠ 0) (h2 : l2 ≠ 0) : DocOk (exDocA l1 l2).1 := by
+  refine ⟨by simp [exDocA], ?_, ?_, ?_⟩
+  · intro _; exact ⟨rfl, rfl⟩
+  · intro c hc
     simp only [exDocA, List.mem_cons, List.not_mem_nil, or_false] at hc
     rcases hc with rfl | rfl
     · exact h1
-    · exact h2, fun _ => by simp [exDocA, embDims]⟩
+    · exact h2
+  · intro _; simp [exDocA, embDims]
 
-theorem exDocB_ok (l : Nat) (z : Bool) (h : l ≠ 0) : DocOk (exDocB l z).1 :=
-  ⟨by decide, fun h0 => absurd h0 h, fun _ hc => by cases hc, fun _ => by simp [exDocB, embDims]⟩
+theorem exDocB_ok (l : Nat) (z : Bool) (h : l ≠ 0) : DocOk (exDocB l z).1 := by
+  refine ⟨by simp [exDocB], ?_, ?_, ?_⟩
+  · intro h0; exact absurd h0 h
+  · intro c hc; cases hc
+  · intro _; simp [exDocB, embDims]
 
 /-- `C40_skip` and `C40_batch` apply to a fresh file and a two-document set (one chunked, with a chunk
     embedding; different stored lengths / compression on the bulk paths; two skip-index commits) -/
 example :
-    Equivalent (runR Mem.create (skipOps [[exDocB 30 false], [exDocA 9 8 false]] 900))
-               (runR Mem.create (plainOps [exDocB 20 true, exDocA 40 41 false] 700)) ∧
-    Equivalent (runR Mem.create (batchOps true 262144 [exDocB 30 false, exDocA 9 8 false] 800))
-               (runR Mem.create (plainOps [exDocB 20 true, exDocA 40 41 false] 700)) := by
-  have okP : ∀ d ∈ [exDocB 20 true, exDocA 40 41 false], DocOk d.1 := by
+    Equivalent (runR Mem.create (skipOps [[exDocB 30 false], [exDocA 9 8]] 900))
+               (runR Mem.create (plainOps [exDocB 20 true, exDocA 40 41] 700)) ∧
+    Equivalent (runR Mem.create (batchOps true 262144 [exDocB 30 false, exDocA 9 8] 800))
+               (runR Mem.create (plainOps [exDocB 20 true, exDocA 40 41] 700)) := by
+  have okP : ∀ d ∈ [exDocB 20 true, exDocA 40 41], DocOk d.1 := by
     intro d hd
     simp only [List.mem_cons, List.not_mem_nil, or_false] at hd
     rcases hd with rfl | rfl
     · exact exDocB_ok 20 true (by decide)
-    · exact exDocA_ok 40 41 false (by decide) (by decide)
-  have okB : ∀ d ∈ [exDocB 30 false, exDocA 9 8 false], DocOk d.1 := by
+    · exact exDocA_ok 40 41 (by decide) (by decide)
+  have okB : ∀ d ∈ [exDocB 30 false, exDocA 9 8], DocOk d.1 := by
     intro d hd
     simp only [List.mem_cons, List.not_mem_nil, or_false] at hd
     rcases hd with rfl | rfl
     · exact exDocB_ok 30 false (by decide)
-    · exact exDocA_ok 9 8 false (by decide) (by decide)
-  have okS : GroupsOk [[exDocB 30 false], [exDocA 9 8 false]] := by
+    · exact exDocA_ok 9 8 (by decide) (by decide)
+  have okS : GroupsOk [[exDocB 30 false], [exDocA 9 8]] := by
     refine ⟨?_, ?_, ?_⟩
     · intro g hg
       simp only [List.mem_cons, List.not_mem_nil, or_false] at hg
@@ -366,13 +399,13 @@ example :
       simp only [List.mem_cons, List.not_mem_nil, or_false] at hg
       rcases hg with rfl | rfl
       · simp only [List.mem_singleton] at hd; subst hd; exact exDocB_ok 30 false (by decide)
-      · simp only [List.mem_singleton] at hd; subst hd; exact exDocA_ok 9 8 false (by decide) (by decide)
+      · simp only [List.mem_singleton] at hd; subst hd; exact exDocA_ok 9 8 (by decide) (by decide)
     · intro g hg d hd
       simp only [List.mem_cons, List.not_mem_nil, or_false] at hg
       rcases hg with rfl | rfl
       · simp only [List.mem_singleton] at hd; subst hd; rfl
       · simp only [List.mem_singleton] at hd; subst hd; rfl
-  have ackP : AllAcked Mem.create (plainOps [exDocB 20 true, exDocA 40 41 false] 700) := by
+  have ackP : AllAcked Mem.create (plainOps [exDocB 20 true, exDocA 40 41] 700) := by
     unfold AllAcked; decide
   exact ⟨C40_skip start_create _ _ 700 900 (by simp) rfl okP okS ackP (by unfold AllAcked; decide),
          C40_batch start_create _ _ 700 800 262144 true (by simp) rfl okP okB ackP (by unfold AllAcked; decide)⟩
